@@ -34,7 +34,7 @@ PROBES = ["unordered_permuted", "straggler_overtaken", "lazy_calls",
           "two_stage_runs", "join_twice_runs", "pickle_roundtrip_runs", "multi_row_fronts",
           "cache_dir_histories", "cache_warm_hit", "cache_variant_not_served_stale", "disk_fault_torn",
           "disk_fault_lost", "disk_fault_enospc", "disk_fault_detected_or_recomputed", "job_fault_runs",
-          "job_fault_propagated", "svg_write_fault_runs"]
+          "job_fault_propagated", "svg_write_fault_runs", "prewarm_other_spec_runs", "prewarm_coarseness"]
 REAL_VS_STUB = {
     "real": ["accelforge mapper (make_pmappings, join_pmappings, detailed evaluation), frontend, model",
              "pandas/numpy/sympy/numba kernels", "cloudpickle round trip of every job and result (W>1)",
@@ -77,7 +77,7 @@ def gen_scenario(seed, k):
     # keep runs short: the quick tier has ~10 s per scenario
     if p["rf"] and (p["n_einsums"] > 1 or max([p["M"]] + p["N"]) > 4):
         p["rf"] = False
-    mode = r.choice(["map"] * 5 + ["two_stage"] * 2 + ["cache"] * 2 + ["fault"])
+    mode = r.choice(["map"] * 4 + ["warm_other"] * 2 + ["two_stage"] * 2 + ["cache"] * 2 + ["fault"])
     runs = []
     for j in range(k):
         runs.append({
@@ -90,6 +90,14 @@ def gen_scenario(seed, k):
             "p_nonzero": r.choice([1.0, 1.0, 0.5, 0.15]),
             "tape_seed": r.getrandbits(48),
         })
+    if mode == "warm_other":
+        # history across specs: the same (simulated) worker process first maps a *different* spec
+        # and keeps its process caches; a memo cache whose key omits an argument then serves stale
+        # answers to this spec
+        for cfg in runs:
+            cfg["prewarm"] = _other_spec(p, r)
+            cfg["cache_mode"] = "keep"
+        mode = "map"
     sc = {"params": p, "mode": mode, "runs": runs, "aux_seed": r.getrandbits(32)}
     focus = os.environ.get("VERIF_C20_FOCUS")
     if focus == "wonly":
@@ -98,6 +106,30 @@ def gen_scenario(seed, k):
         sc["runs"] = [dict(runs[0], W=W, order_mode="fifo", exec_shuffle=False, cache_mode="keep",
                            clock_jumpy=False, p_nonzero=0.0) for W in (16, 4)]
     return sc
+
+
+def _other_spec(p, r):
+    """A spec that differs from p in exactly one knob the mapper's memo caches must be keyed on."""
+    import copy
+    q = copy.deepcopy(p)
+    which = r.choice(["coarseness", "coarseness", "M", "N", "bits", "glb_size", "fused", "fanout"])
+    if which == "coarseness":
+        cur = (q.get("mapper") or {}).get("tiling_coarseness", 1)
+        q["mapper"] = dict(q.get("mapper") or {}, tiling_coarseness=r.choice([c for c in (1, 2, 4) if c != cur]))
+    elif which == "M":
+        q["M"] = r.choice([x for x in (2, 3, 4, 6) if x != q["M"]])
+    elif which == "N":
+        q["N"] = [r.choice([x for x in (2, 3, 4, 6) if x != q["N"][0]])] * len(q["N"])
+    elif which == "bits":
+        q["bits"] = 16 if q["bits"] == 8 else 8
+    elif which == "glb_size":
+        q["glb_size"] = "inf" if q["glb_size"] != "inf" else 64 * q["bits"]
+    elif which == "fused":
+        q["max_fused_loops"] = 0 if q["max_fused_loops"] != 0 else "inf"
+    else:
+        q["fanout"] = 2 if q["fanout"] == 1 else 1
+    q["_differs_in"] = which
+    return q
 
 
 # ------------------------------------------------------------------ one mapper run
@@ -206,7 +238,7 @@ def _nontrivial(rr, ref_front):
     calls = [c for c in rr.sim.calls if c.n_jobs >= 2]
     rows = ref_front["rows"] if isinstance(ref_front, dict) else ref_front[0]["rows"]
     perturbed = rr.sim.stats["unordered_permuted"] > 0 or rr.extra.get("cache_epoch_clears", 0) > 0 \
-        or rr.extra.get("clock_jumps", 0) > 0
+        or rr.extra.get("clock_jumps", 0) > 0 or rr.extra.get("prewarm_other_spec_runs", 0) > 0
     return len(calls) >= 2 and perturbed and len(rows) > 0
 
 
@@ -263,7 +295,18 @@ def _violation(cls, site_key, detail, sc, run_index, cfg, tape, extra=None):
 def exec_compare_run(sc, cfg, tape, workdir, ref_front):
     """One perturbed run + comparison; returns (violation classes dict, rr)."""
     body, variant = _body_for(sc)
+    if cfg.get("prewarm"):
+        from sim import caches, common
+        from sim.tape import Tape
+        caches.clear_all()
+        pre = run_mapper(cfg["prewarm"], dict(cfg, cache_mode="keep", prewarm=None),
+                         Tape(seed=cfg["tape_seed"] ^ 0x5A5A, p_nonzero=cfg["p_nonzero"]), body_map, workdir)
+        common.purge_scratch()
+        cfg = dict(cfg, cache_mode="keep")
     rr = run_mapper(sc["params"], cfg, tape, body, workdir)
+    if cfg.get("prewarm"):
+        rr.extra["prewarm_other_spec_runs"] = 1
+        rr.extra["prewarm_" + str(cfg["prewarm"].get("_differs_in"))] = 1
     if rr.error is not None:
         return {"exception": f"perturbed run raised {type(rr.error).__name__}: {str(rr.error)[:300]} "
                              f"while the reference run returned a front"}, rr
@@ -353,7 +396,8 @@ def run_seed(seed, ctx):
         res["interleavings"].append(hashlib.sha1(repr(sig).encode()).hexdigest()[:16])
         if _nontrivial(rr, ref_front):
             res["keys"].append(hashlib.sha1(repr((sc["params"], cfg["W"], sig, cfg["cache_mode"],
-                                                   cfg["clock_jumpy"], sc["mode"])).encode()).hexdigest()[:16])
+                                                   cfg["clock_jumpy"], sc["mode"],
+                                                   (cfg.get("prewarm") or {}).get("_differs_in"))).encode()).hexdigest()[:16])
         if classes and not res["violations"]:
             vclass, detail = next(iter(classes.items()))
 
@@ -399,6 +443,8 @@ def _simplify_run(sc):
 
     def w(**kw):
         return dict(sc, runs=runs[:-1] + [dict(cfg, **kw)])
+    if cfg.get("prewarm"):
+        yield w(prewarm=None)
     if cfg["clock_jumpy"]:
         yield w(clock_jumpy=False)
     if cfg["cache_mode"] != "keep":
